@@ -89,6 +89,24 @@ def run(ctx):
                     rep.violation("corr:dumps:%s" % e, "Model of _Marshaller disagrees with implementation on %s: impl %s model %s" % (e, r["xdumps"][:120], model[i][:120]),
                                   dict(inp, impl=r["xdumps"], model=model[i]), found_input=False)
             rep.sample({"host": "%d.%d" % hv, "value": exprs[-1], "xdis.marsh.dumps": results[-1].get("xdumps", "")[:80]})
+            # the same questions after this process has marshalled code objects of other versions
+            hist = w.r("marsh_history", repo=core.REPO)
+            sub = list(range(0, len(exprs), max(1, len(exprs) // 60)))
+            for i in sub:
+                r1 = results[i]
+                if not isinstance(r1, dict) or "xdumps" not in r1:
+                    continue
+                r2 = w.r("marsh_roundtrip", expr=exprs[i])
+                rep.count(1, (hv, "after-history", exprs[i]))
+                if not isinstance(r2, dict) or r2.get("xdumps") != r1["xdumps"] or \
+                        ("host_loads" in r1 and mcanon.render(r2.get("host_loads", ["none"])) != mcanon.render(r1["host_loads"]) and "nan" not in exprs[i]):
+                    rep.violation("dumps-after-history:%d.%d:%s" % (hv[0], hv[1], exprs[i]),
+                                  "xdis.marsh.dumps(%s) gives %s after code objects of other versions were marshalled in the process, %s before (host %d.%d)"
+                                  % (exprs[i], str((r2 or {}).get("xdumps", (r2 or {}).get("xdumps_err")))[:80], r1["xdumps"][:80], hv[0], hv[1]),
+                                  {"host": "%d.%d" % hv, "value": exprs[i], "history": hist.get("done") if isinstance(hist, dict) else str(hist)[:200],
+                                   "before": r1["xdumps"], "after": (r2 or {}).get("xdumps"),
+                                   "call": "marsh_history (dumps / write_bytecode_file of corpus code objects), then xdis.marsh.dumps(value)"})
+                    break
         finally:
             w.close()
 
